@@ -14,7 +14,8 @@ RULE = ("every 2-input <=2-gate circuit, the C01 aliasing family, and seeded ran
         "assumption sets {none, on internal nodes, contradictory}; model_count and the DIMACS projected count are "
         "compared with brute-force enumeration; signal_probability for every node of acyclic blackbox-free "
         "circuits; non-trivial = circuit has a gate"
-        "; plus: the template-name family of C01 and circuits with 10-11 startpoints whose projected count depends on every startpoint (DIMACS export only)")
+        "; plus: the template-name family of C01 and circuits with 10-11 startpoints whose projected count depends on every startpoint (DIMACS export only)"
+        "; histories: an earlier revision of the same object (one gate type different) counted before, then edited back in place")
 BOUND = "circuits <= 14 nodes, <= 9 free signals; assumptions over <= 3 nodes; 4/16 hash seeds"
 
 
@@ -27,7 +28,7 @@ def cases(tier, seed):
                 continue
             names = [n[0] for n in cd["nodes"]]
             for A in c01._assignments(rng, names, 1):
-                yield {"c": cd, "A": A, "approx": i % 6 == 0}
+                yield {"c": cd, "A": A, "approx": i % 6 == 0, "edited": i % 5 == 0}
     for i, cd in enumerate(c01.alias_family()):
         if i % (3 if tier == "quick" else 1) == 0:
             yield {"c": cd, "A": {}, "approx": False}
@@ -60,7 +61,7 @@ def cases(tier, seed):
             n = rng.choice(names)
             As.append({n: True, **{m: False for m in names if m != n and rng.random() < 0.2}})
         for A in As:
-            yield {"c": cd, "A": A, "approx": rng.random() < 0.3}
+            yield {"c": cd, "A": A, "approx": rng.random() < 0.3, "edited": rng.random() < 0.3}
 
 
 def run_case(case):
@@ -74,6 +75,21 @@ def run_case(case):
         want = oracle.count_startpoint_models(c, A)
     except oracle.OracleError:
         return {"nontrivial": False, "failures": []}
+    if case.get("edited"):
+        # the caller counted an earlier revision of the same object, then edited it in place (same nodes and edges)
+        gs = sorted(n for n in c.graph if c.graph.nodes[n].get("type") in gen.MULTI)
+        if gs:
+            g_ = gs[len(gs) // 2]
+            t_ = c.graph.nodes[g_]["type"]
+            c.set_type(g_, gen.MULTI[(gen.MULTI.index(t_) + 1) % len(gen.MULTI)])
+            try:
+                cg.sat.model_count(c, dict(A))
+                if not c.blackboxes and nx.is_directed_acyclic_graph(c.graph):
+                    cg.props.signal_probability(c, g_, approx=False)
+            except Exception:
+                pass
+            finally:
+                c.set_type(g_, t_)
     try:
         # (enumeration by blocking clauses with the pure-Python solver stand-in: skipped for the wide export-only cases)
         got = want if case.get("export_only") else cg.sat.model_count(c, dict(A))
